@@ -38,7 +38,6 @@ func DoCall(k *Key, form string, sh *Shared, h Hooks) (result string, mapViolati
 type Shared struct {
 	Map  map[string]string
 	Opts *pql.CompileOptions
-	n    int // calls made with a caller's own value ("reused" form)
 }
 
 // NewShared builds the shared objects for key k (before the run starts). With zero set the options
@@ -114,25 +113,25 @@ func DoCallKeep(k *Key, form string, sh *Shared, h Hooks) (result string, mapVio
 			// its exported fields to what this call is to be given (a caller may do that between calls)
 			opts = sh.Opts
 			resetExported(opts)
-			sh.n++
-			switch {
-			case sh.n%2 == 1:
-				// the caller's own map object, emptied and refilled in place between its calls
-				if sh.Map == nil {
-					sh.Map = map[string]string{}
-				}
-				for name := range sh.Map {
-					delete(sh.Map, name)
-				}
-				for _, kv := range k.Params {
-					sh.Map[kv[0]] = kv[1]
-				}
-				watched = sh.Map
-				opts.Parameters = watched
-			case len(k.Params) > 0:
+			if len(k.Params) > 0 {
 				watched = k.ParamMap()
 				opts.Parameters = watched
 			}
+		case "refilled":
+			// as "reused", and the caller's own map object is emptied and refilled in place between its calls
+			opts = sh.Opts
+			resetExported(opts)
+			if sh.Map == nil {
+				sh.Map = map[string]string{}
+			}
+			for name := range sh.Map {
+				delete(sh.Map, name)
+			}
+			for _, kv := range k.Params {
+				sh.Map[kv[0]] = kv[1]
+			}
+			watched = sh.Map
+			opts.Parameters = watched
 		default:
 			panic("c14sim: unknown option form " + form)
 		}
